@@ -284,7 +284,13 @@ func (vc *FnVC) applyContract(con *Contract, desc, wit string, callee *ssa.Funct
 			if mentionsWitness(en.Expr) {
 				continue // a clause over the callee's own call sites: an obligation of the callee, not a fact for callers
 			}
-			t := env.boolExpr(en.Expr)
+			t, err := vc.trySpec(func() string { return env.boolExpr(en.Expr) })
+			if err != "" {
+				// a clause about the callee's locals (internal obligation of the callee) cannot be read by callers
+				vc.note("clause of " + desc + " not usable at call sites: " + clauseName(en, 0))
+				env.side = nil
+				continue
+			}
 			vc.flushSide(env)
 			vc.assume(t)
 		}
